@@ -72,6 +72,15 @@ def gen_cases(tier, seed):
                 cid = "resp:%s-assn:%s-k%02d-%s" % (ri, ai, j, "on" if opt else "off")
                 cases.append({"id": cid, "sig": [ri + "/" + ai, j, "actual", "assertion", opt], "issuer": ri, "assertion_issuer": ai, "key": j,
                               "embed": "actual", "level": "assertion", "opt": opt})
+    # a signed assertion that reaches the SP inside the Advice of an (unsigned, otherwise fine) assertion, encrypted to the SP: its signature is
+    # judged under the keys of the issuer IT names, whoever issued what is around it
+    for (ri, ai) in (("A-signing", "A-signing"), ("A-signing", "B-signing+encryption"), ("A-signing", "U-unknown"), ("B-signing+encryption", "U-unknown"),
+                     ("E-two-signing", "C-useless"), ("A-signing", "D-encryption-only")):
+        for j in (0, 3, 5, 6, 7, 9):
+            for opt in (1, 0, "default"):
+                cid = "advice-encrypted:outer:%s-inner:%s-k%02d-%s" % (ri, ai, j, {1: "on", 0: "off", "default": "default"}[opt])
+                cases.append({"id": cid, "sig": ["advice-encrypted", ri + "/" + ai, j, opt], "issuer": ri, "assertion_issuer": ai, "key": j,
+                              "embed": "actual", "level": "advice-encrypted", "opt": opt})
     # the same rule on the IdP side, with the order of key look-ups as part of the history: certificates an IdP fetched for ENCRYPTING to an SP
     # must never come back as that SP's signing certificates
     for k, order in enumerate((("request:enc-key", "encrypt", "request:enc-key", "request:sign-key"), ("encrypt", "request:enc-key", "request:sign-key"),
@@ -214,6 +223,8 @@ def run_case(case, ctx):
         return run_idp_history(case, ctx)
     if case.get("kind") == "threads":
         return run_threads_case(case, ctx)
+    if case["level"] == "advice-encrypted":
+        return run_advice(case, ctx)
     (sp, spmd) = _sp(ctx, case["opt"], case["level"])
     opt_on = bool(case["opt"])          # "default" counts as on
     idp = _idp(ctx, case["issuer"], spmd)
@@ -289,6 +300,52 @@ def run_case(case, ctx):
             "counters": {"verify_events": len(tried), "accepted": int(accepted), "must_accept_cells": int(must_accept),
                          "fallback_cells": int(fallback_ok), "fallback_accepted": int(fallback_ok and accepted)},
             "obs": {"tried": tried, "allowed": sorted(allowed)}}
+
+
+def run_advice(case, ctx):
+    import saml2_tophat.sigver as sv
+    (sp, spmd) = _sp(ctx, case["opt"], "none")
+    opt_on = bool(case["opt"])
+    idp = _idp(ctx, case["issuer"], spmd)
+    xml = fed.issue(idp, {"givenName": ["Ann"]}, sign_response=False, sign_assertion=False)
+    d = xk.Doc(xml)
+    main = d.find(xk.SAML, "Assertion")[0]
+    p = d.prefix(main)
+    inner = xk.Doc(d.standalone(main))
+    inner = inner.set_attr(inner.root, "ID", "id-advice-assertion")
+    inner = inner.set_text(inner.root.child(xk.SAML, "Issuer"), IDPS[case["assertion_issuer"]]["eid"])
+    txt = inner.text()
+    if txt.startswith("<?xml"):
+        txt = txt[txt.index("?>") + 2:]
+    txt = txt.replace("Ann", "Mallory").replace("givenName", "sn").replace("2.5.4.42", "2.5.4.4")
+    j = case["key"]
+    signed = xk.sign_element(txt, xk.SAML, "Assertion", "id-advice-assertion", fed.key(j)[0], "rsa-sha256", fed.cert_body(j))
+    if signed.startswith("<?xml"):
+        signed = signed[signed.index("?>") + 2:]
+    ed = xk.encrypt_fragment(signed, fed.key(2)[1])
+    adv = "<%s:Advice><%s:EncryptedAssertion>%s</%s:EncryptedAssertion></%s:Advice>" % (p, p, ed.decode("utf-8") if isinstance(ed, bytes) else ed, p, p)
+    doc = d.insert_after(d.find(xk.SAML, "Conditions")[0], adv).text()
+    ctx.mark()
+    resp, exc = fed.deliver(sp, doc, {"id-req-1": "/"})
+    evs = [e for e in ctx.events() if not e.get("case", "").startswith("harness:")]
+    sc = signing_capable(case["assertion_issuer"])
+    merged = resp is not None and "Mallory" in repr(getattr(resp, "ava", None))
+    fallback_ok = (not opt_on) and not sc
+    viol = []
+    outcome = ("accept+advice-merged" if merged else "accept-advice-ignored") if resp is not None else "reject:" + (type(exc).__name__ if exc is not None else "None")
+    what = "encrypted advice assertion naming issuer %s (signing-capable metadata keys %s) inside an assertion of %s, signed with k%02d (certificate embedded), only_use_keys_in_metadata=%s: %s" % (
+        case["assertion_issuer"], ["k%02d" % k for k in sc], case["issuer"], j, case["opt"] if case["opt"] == "default" else bool(case["opt"]), outcome)
+    if merged and not (j in sc or fallback_ok):
+        viol.append({"key": "C03/accepted-under-key-not-held-for-issuer", "what": what, "detail": {"ava": repr(resp.ava)}})
+    allowed = set("k%02d" % k for k in sc) if (sc or opt_on) else {"k%02d" % j}
+    tried = [monitors.cert_name(e.get("cert", b"")) for e in evs if e.get("cmd") == "verify"]
+    bad = sorted(set(t for t in tried if t not in allowed))
+    if bad:
+        viol.append({"key": "C03/certificate-outside-issuers-metadata-keys-tried", "what": what + "; certificates tried %r, allowed %r" % (tried, sorted(allowed))})
+    sig_reject = exc is not None and isinstance(exc, sv.SigverError)
+    return {"outcome": outcome, "nontrivial": resp is not None or sig_reject, "violations": viol,
+            "counters": {"verify_events": len(tried), "accepted": int(resp is not None), "advice_cases": 1, "advice_merged": int(merged),
+                         "must_accept_cells": 0, "fallback_cells": 0, "fallback_accepted": 0}, "obs": {"tried": tried, "allowed": sorted(allowed)}}
 
 
 def finalize(cases, results, tier, extras):
